@@ -21,29 +21,42 @@ def run(rep, tier, props):
         if rb.get('violated') != 'MaskAligned':
             raise tlc.MachineryError('DeclOrder: TLC does not find the misaligned mask on the unrepaired transcription (%r)' % rb.get('violated'))
         rep.add_tlc('DeclOrder[unrepaired DecRule.to_affine: counterexample to MaskAligned expected]', rb, note='violation expected and found')
-        cap = 500 if tier == 'quick' else 6000
+        cap = 1200 if tier == 'quick' else 9000
         model = tlc.make_model('DeclOrder', sc, constants=_consts(True, True), invariants=['MaskAligned', 'ExprAligned', 'Progress', 'Export'])
         res = tlc.run_tlc(model, sc, workers=8, coverage=True, timeout=1200,
                           export_sample=(cap, rep.seed, lambda r: False))
         tlc.require_ok(res, 'DeclOrder')
         rep.add_tlc('DeclOrder[12 declaration steps, every linear extension of the dependency order]', res)
         orders = res['exports']
-    if len(orders) < min(cap, 300):
+    if len(orders) < min(cap, 300) or sum(1 for r in orders if r['illegal']) < 50 or sum(1 for r in orders if not r['illegal']) < 150:
         raise tlc.MachineryError('DeclOrder: only %d orders exported' % len(orders))
     rep.exhaustive = False
     orders.sort(key=lambda r: json.dumps(r, sort_keys=True))
-    n_late_rule = sum(1 for r in orders if r['lateRule'])
-    n_late_expr = sum(1 for r in orders if r['lateExpr'])
-    if n_late_rule < 20 or n_late_expr < 20:
+    n_late_rule = sum(1 for r in orders if r['lateRule'] and not r['illegal'])
+    n_late_expr = sum(1 for r in orders if r['lateExpr'] and not r['illegal'])
+    if n_late_rule < 15 or n_late_expr < 15:
         raise tlc.MachineryError('DeclOrder: sample lacks late-declaration orders (%d, %d)' % (n_late_rule, n_late_expr))
-    jobs = [dict(tid=k, order=r['order']) for k, r in enumerate(orders)]
+    jobs = [dict(tid=k, order=r['order'], illegal=r['illegal']) for k, r in enumerate(orders)]
     results = core.pmap('harness.replay_declorder', 'replay', jobs, chunksize=8)
     bad = core.machinery_failures(results)
     if bad:
         raise tlc.MachineryError('replay_declorder failed: %s\n%s' % (bad[0]['machinery_error'], bad[0].get('tb', '')))
-    stats = dict(orders=len(jobs), rvar_after_adapt=n_late_rule, rvar_after_expression=n_late_expr, compared=0)
+    stats = dict(orders=len(jobs), rvar_after_adapt=n_late_rule, rvar_after_expression=n_late_expr, compared=0, illegal_adapt_after_use=0, illegal_raised=0)
     for job, rec, r in zip(jobs, orders, results):
         rep.count(key=('DO', ' '.join(job['order'])))
+        if rec['illegal']:
+            stats['illegal_adapt_after_use'] += 1
+            first_use_unadapted = not any(s_ in rd.ADAPTS for s_ in job['order'][:job['order'].index('u0')]) if 'u0' in job['order'] else False
+            if 'prefix_exc' in r:
+                for pr in ('C09', 'C15'):
+                    _emit(rep, dict(sig='%s:declaration-order:raises:%s:legal-prefix' % (pr, r['prefix_exc'].split(':')[0]), prop=pr, what='a legal prefix raises %s' % r['prefix_exc'], order=job['order'], result=r), props)
+            elif r['illegal_outcome'] == 'accepted':
+                for pr in ('C13', 'C10'):
+                    _emit(rep, dict(sig='%s:adapt-after-use-accepted:%s' % (pr, 'rule-used-before-any-adaptation' if first_use_unadapted else 'rule-used-after-some-adaptation'), prop=pr,
+                                    what='adapt() on a decision rule that was already used in an expression did not raise', order=job['order'], result=r), props)
+            else:
+                stats['illegal_raised'] += 1
+            continue
         can, got = r['canonical'], r['order']
         if 'exc' in can or can.get('obj') is None:
             raise tlc.MachineryError('DeclOrder: the canonical order does not solve: %r' % can)
